@@ -8,7 +8,11 @@
      reload <seed> <k> <other> <n> <rest>    engine(seed), k draws, save ++ rest, load into engine(other),
                                              n draws from both         -> OK <reloaded o..> | <original o..> | <rest>
      readu <text>                            -> OK v <rest> | FAIL v
-     showu <v>                               -> text                                                         *)
+     showu <v>                               -> text
+     draws <seed> <req>...                   vita::random::seed(seed) then the requests in order, each answered by the
+                                             modelled libstdc++ distribution from the engine state:
+                                               i:<lo>:<hi> (signed hex)  r:<lo>:<hi> (double bits)  b:<p>  s (one output skipped)
+                                             -> i:<v> | r:<bits> | b:<0|1> | s | FAIL   per request                          *)
 let n_of_hex h = Z.to_N (z_of_hex h)
 let hex_of_n x = hex_of_z (Z.of_N x)
 let bytes_of_hex (s : string) : n list =
@@ -20,6 +24,29 @@ let show_state st = String.concat " " (List.map hex_of_n [st.s0; st.s1; st.s2; s
 let show_outs l = String.concat " " (List.map hex_of_n l)
 let mk a b c d = { s0 = n_of_hex a; s1 = n_of_hex b; s2 = n_of_hex c; s3 = n_of_hex d }
 let ni s = nat_of_int (int_of_string s)
+(* signed hexadecimal of any size: "-1f" *)
+let z_of_shex (s : string) : z =
+  if String.length s > 0 && s.[0] = '-' then Z.opp (z_of_hex (String.sub s 1 (String.length s - 1))) else z_of_hex s
+let rec strip0 s = if String.length s > 1 && s.[0] = '0' then strip0 (String.sub s 1 (String.length s - 1)) else s
+let shex_of_z (x : z) : string =
+  match x with
+  | Zneg p -> "-" ^ strip0 (hex_of_z ~width:20 (Zpos p))
+  | _ -> strip0 (hex_of_z ~width:20 x)
+let f64_of_hex h = F64.of_bits (z_of_hex h)
+let hex_of_f64 f = if F64.is_nan f then "7ff8000000000000" else hex_of_z (F64.to_bits f)
+let parse_req (t : string) : request =
+  match String.split_on_char ':' t with
+  | ["i"; lo; hi] -> QInt (z_of_shex lo, z_of_shex hi)
+  | ["r"; lo; hi] -> QReal (f64_of_hex lo, f64_of_hex hi)
+  | ["b"; p] -> QBool (f64_of_hex p)
+  | ["s"] -> QSkip
+  | _ -> failwith ("request " ^ t)
+let show_answer = function
+  | AInt v -> "i:" ^ shex_of_z v
+  | AReal v -> "r:" ^ hex_of_f64 v
+  | ABool b -> if b then "b:1" else "b:0"
+  | ASkipped -> "s"
+  | AFail -> "FAIL"
 
 let () =
   try
@@ -57,6 +84,10 @@ let () =
                 if at_eof (bytes_of_hex txt) then print_endline "FAIL 0000000000005555"
                 else print_endline ("FAIL " ^ hex_of_n v))
        | ["showu"; v] -> print_endline (hex_of_bytes (show_u (n_of_hex v)))
+       | "draws" :: seed :: reqs ->
+           let st = random_seed zero_state (n_of_hex seed) in
+           let ans = answers (nat_of_int 1000) (List.map parse_req reqs) st in
+           print_endline (String.concat " " (List.map show_answer ans))
        | _ -> print_endline "BADLINE")
     done
   with End_of_file -> ()
